@@ -313,7 +313,12 @@ func handleWHO(c *Client, e Event) {
 	user.Ident = ident
 	user.Extras.Name = realname
 
-	if account != "0" {
+	// Only WHOX carries the account; "0" means they aren't logged in.
+	if e.Command == RPL_WHOSPCRPL {
+		if account == "0" {
+			account = ""
+		}
+
 		user.Extras.Account = account
 	}
 
